@@ -111,12 +111,12 @@ def run(chk):
     quick = chk.tier == "quick"
     level1 = list(composites(LEAVES))
     items = list(LEAVES) + level1
+    plain = [x for x in level1 if not isinstance(x[0], tuple) and x[1] is not None]
+    rep = plain[::41][:4]
     if not quick:
-        sample = [x for x in level1 if not isinstance(x[0], tuple) and x[1] is not None][::7]
-        items += list(composites(sample[:12]))
-    else:
-        rep = [x for x in level1 if not isinstance(x[0], tuple) and x[1] is not None][::41]
-        items += list(composites(rep[:4]))
+        # a superset of the quick tier's depth-3 sample (obligation names of the quick tier stay present)
+        rep = rep + [x for x in plain[::7][:12] if not any(x is y for y in rep)]
+    items += list(composites(rep))
     ITEMS[:] = items
     import gc; gc.collect(); gc.freeze()  # forked workers then touch (copy) far fewer pages
     with mp.get_context("fork").Pool(chk.jobs) as pool:
